@@ -622,6 +622,28 @@ def binary_rule(rep, prog, cfg):
                     leaves, _ = fl2.sources([op_local(s["rv"]["ops"][0])], follow_mut=False)
                     ok = any(x[0] == "call" and any(y.endswith("::len") for y in callee_names(fb.blocks[x[1]]["t"])) for x in leaves) \
                         and not any(x[0] == "const" for x in leaves)
+        if not ok:
+            # equivalent form: the binary parser hands back the announced length itself — the very value it gave to `take(n)`,
+            # which yields exactly n bytes — and the mapping closure stores that number
+            alts = alt_table(prog, pc[0]) or {}
+            pfn = prog.bodies.get((alts.get("BinaryField") or {}).get("parser"))
+            if pfn is not None:
+                flp = Flow(pfn)
+                takes = [t for _, t in pfn.calls() if any(n in ("nom::bytes::streaming::take", "nom::bytes::complete::take") for n in callee_names(t))]
+                rets = []
+                for _, _, s2 in pfn.stmts():
+                    if s2["k"] == "assign" and s2["rv"]["k"] == "agg" and s2["rv"].get("agg") == "tuple" and len(s2["rv"]["ops"]) == 2:
+                        rets.append(op_local(s2["rv"]["ops"][1]))
+                if len(takes) == 1 and rets and op_local(takes[0]["args"][0]) is not None:
+                    src_take, _ = flp.sources([op_local(takes[0]["args"][0])], follow_mut=False)
+                    same = all(r is not None and flp.sources([r], follow_mut=False)[0] == src_take for r in rets)
+                    stored_param = False
+                    for fb in family(prog, pc[0]):
+                        for _, _, s2 in fb.stmts():
+                            if s2["k"] == "assign" and s2["rv"]["k"] == "agg" and s2["rv"].get("variant") == "BinaryField":
+                                lv, _ = Flow(fb).sources([op_local(s2["rv"]["ops"][0])], follow_mut=False)
+                                stored_param = lv == {("param", 2)}
+                    ok = same and stored_param and any(x[0] == "call" for x in src_take) and not any(x[0] == "const" for x in src_take)
         rep.check(ok, rule, cfg + "/data_length = len(payload)", pc[0].loc(pc[0].span), "data_length is not the length of the parsed payload")
 
 
